@@ -78,7 +78,35 @@ func (w *World) EnvJSON() M {
 	for i, n := range names {
 		rank = append(rank, []int{w.Addr.ID(n), i})
 	}
-	return M{"modOrder": w.Addr.ID(w.Mods[ordertypes.ModuleName]), "modMarket": w.Addr.ID(w.Mods[markettypes.ModuleName]),
+	type ab struct {
+		id int
+		b  []byte
+	}
+	var abs []ab
+	for id := 1; id < len(w.Addr.names); id++ {
+		if a, err := sdk.AccAddressFromBech32(w.Addr.names[id]); err == nil {
+			abs = append(abs, ab{id, a})
+		}
+	}
+	sort.Slice(abs, func(i, j int) bool { return string(abs[i].b) < string(abs[j].b) })
+	rankB := [][]int{}
+	for i, x := range abs {
+		rankB = append(rankB, []int{x.id, i})
+	}
+	var vbs []ab
+	for id := 1; id < len(w.Val.names); id++ {
+		if a, err := sdk.ValAddressFromBech32(w.Val.names[id]); err == nil {
+			vbs = append(vbs, ab{id, a})
+		}
+	}
+	sort.Slice(vbs, func(i, j int) bool { return string(vbs[i].b) < string(vbs[j].b) })
+	valRankB := [][]int{}
+	for i, x := range vbs {
+		valRankB = append(valRankB, []int{x.id, i})
+	}
+	return M{"modBonded": w.Addr.ID(w.Mods[stakingtypes.BondedPoolName]), "modNotBonded": w.Addr.ID(w.Mods[stakingtypes.NotBondedPoolName]),
+		"rankB": rankB, "valRankB": valRankB,
+		"modOrder": w.Addr.ID(w.Mods[ordertypes.ModuleName]), "modMarket": w.Addr.ID(w.Mods[markettypes.ModuleName]),
 		"modNode": w.Addr.ID(w.Mods[nodetypes.ModuleName]), "modDid": w.Addr.ID(w.Mods[didtypes.ModuleName]), "rank": rank, "chainOk": true}
 }
 
